@@ -62,10 +62,12 @@ def _equiv_cases(ctx, rule, file, fname, what, got, want, lang, construct, line=
         elif r[0] == 'differ':
             ok_all = False
             wv = r[1]
+            sa_ = sym.atoms(g) | sym.atoms(w)
+            sig = sym.fail_signature(g, w, [d for d in (dom or []) if sym.atoms(d) <= sa_], box=BOX)
             ctx.violation(rule, file, fname, construct,
                           '%s disagrees with the documented scheme (%s): at %s the code gives %s, the scheme %s  [code: %s | scheme: %s]'
                           % (what, lab, ', '.join('%s=%s' % kv for kv in sorted(wv.items())), sym.evaluate(g, wv), sym.evaluate(w, wv),
-                             sym.show(g)[:200], sym.show(w)[:200]), line=line, facts={'witness': wv})
+                             sym.show(g)[:200], sym.show(w)[:200]), line=line, facts={'witness': wv, 'failset': '%s=%s' % (lab, sig)})
         else:
             ctx.undecided(rule, inst, r[1])
     return ok_all
@@ -316,6 +318,18 @@ def rule_recurrence(ctx, F):
                 for st in lp.body:
                     if st.k == 'assign' and st.target[0] == 'idx' and st.target[1] == ('var', arr) and subst_expr(st.value, ev[3]) == ('num', float('inf')):
                         ok = True
+                        # extent: the reset covers the whole half [0, length) of the row toggled for writing -- a slot left out
+                        # keeps the cost written two rows earlier and is read as a predecessor when the cell is skipped (max_step)
+                        ends = []
+                        for bound in (lp.lo, lp.hi):
+                            e = subst_expr(subst_expr(st.target[2], {lp.var: bound}), ev[3])
+                            sp = split(norm_minmax(e))
+                            ends.append(sp)
+                        if lp.inclusive or lp.step not in (None, ('num', 1)) or None in ends or ends[0][0] != 'cur' or ends[1][0] != 'cur':
+                            ctx.undecided('R-REC', F.file, F.name, 'row reset extent', 'unrecognised reset loop shape', lp.line)
+                        else:
+                            _equiv_cases(ctx, 'R-REC', F.file, F.name, 'row reset extent (first slot)', ends[0][1], C(0), F.lang, 'reset lo', lp.line)
+                            _equiv_cases(ctx, 'R-REC', F.file, F.name, 'row reset extent (one past last slot)', ends[1][1], lt, F.lang, 'reset hi', lp.line)
     ctx.check(ok, 'R-REC', F.file, F.name, 'row reset', 'the row being written is not reset to infinity before the column loop', F.outer_line)
     # max_step guard: `d > max_step` leaves the cell excluded
     guard = [e for e in F.col.events if e[0] == 'continue']
